@@ -19,14 +19,19 @@ OptSets == [
                 ELSE {{}, {"fix", "outs"}, {"fix", "outs", "brush", "disp", "multi", "vis", "group", "hidden"}},
   Output    |-> SUBSET {"inst", "comma"},
   VisGroup  |-> SUBSET {"kids"},
-  Keyvalues |-> {{"leaf"}, {}, {"nested"}, {"root"}, {"root", "nested"}}
+  Keyvalues |-> {{"leaf"}, {}, {"nested"}, {"root"}, {"root", "nested"}},
+  \* the remaining classes of srctools.vmf that can be copied (no optional blocks)
+  EntityGroup |-> {{}}, Camera |-> {{}}, Cordon |-> {{}}, UVAxis |-> {{}}, EntityFixup |-> {{}}
 ]
 Roots == DOMAIN OptSets
 Hows == [Side |-> {"same", "other"}, Solid |-> {"same", "other"}, Entity |-> {"same", "other"},
-         Output |-> {"same"}, VisGroup |-> {"same", "other"}, Keyvalues |-> {"same"}]
+         Output |-> {"same"}, VisGroup |-> {"same", "other"}, Keyvalues |-> {"same"},
+         EntityGroup |-> {"same", "other"}, Camera |-> {"same"}, Cordon |-> {"same"}, UVAxis |-> {"same"},
+         EntityFixup |-> {"copy", "deepcopy"}]        \* copy.copy() / copy.deepcopy(): both give fresh values
 Methods == [Side |-> {"translate", "localise", "vertex_edit"}, Solid |-> {"translate", "localise", "vertex_edit", "vis_edit"},
             Entity |-> {"translate", "localise", "vertex_edit", "key_edit", "fixup_edit", "out_edit", "vis_edit"},
-            Output |-> {"out_edit"}, VisGroup |-> {"vis_edit"}, Keyvalues |-> {"key_edit"}]
+            Output |-> {"out_edit"}, VisGroup |-> {"vis_edit"}, Keyvalues |-> {"key_edit"},
+            EntityGroup |-> {"vis_edit"}, Camera |-> {}, Cordon |-> {}, UVAxis |-> {}, EntityFixup |-> {"fixup_edit"}]
 
 VARIABLES cls, opts, how, sl, h, phase, nmut, act
 vars == <<cls, opts, how, sl, h, phase, nmut>>
